@@ -10,11 +10,11 @@ while getopts "j:" o; do case $o in j) J=$OPTARG;; esac; done; shift $((OPTIND-1
 IDS="$1"
 MUT_DIR=${MUT_DIR:-/tmp/mutsweep}; mkdir -p $MUT_DIR
 [ -x $MUT_DIR/mutgen ] || (cd /verif/tools/mutgen && go build -o $MUT_DIR/mutgen .) || exit 2
-[ -f $MUT_DIR/mutants.tsv ] || $MUT_DIR/mutgen list /repo > $MUT_DIR/mutants.tsv
+[ -d $MUT_DIR/base ] || { echo "run tools/mutation_phase1.sh first"; exit 2; }
 for k in $(seq 1 $J); do
   WT=$MUT_DIR/p2slot$k/repo
   git -C /repo worktree remove --force $WT 2>/dev/null; rm -rf $MUT_DIR/p2slot$k; mkdir -p $MUT_DIR/p2slot$k
-  git -C /repo worktree add -q --detach $WT HEAD || exit 2
+  git -C /repo worktree add -q --detach $WT $(git -C $MUT_DIR/base rev-parse HEAD) || exit 2
 done
 order_for() { # relevance order by package of the mutated file
   case "$1" in
@@ -30,7 +30,7 @@ one() { # $1 = slot, $2 = id
   line=$(sed -n "$((id+1))p" $MUT_DIR/mutants.tsv | cut -f2-)
   file=$(echo "$line" | cut -f1)
   rm -rf $OUT; mkdir -p $OUT/.build
-  $MUT_DIR/mutgen apply /repo $id $WT >/dev/null
+  $MUT_DIR/mutgen apply $MUT_DIR/base $id $WT >/dev/null
   sed "s#=> /repo#=> $WT#" /verif/harness/go.mod > $OUT/.build/go.mod; cp /verif/harness/go.sum $OUT/.build/go.sum
   verdict=SURVIVOR; by="-"
   tags=verif
